@@ -82,7 +82,12 @@ Theorem c06_gap_requested : forall s off len r,
 Proof. exact gap_requested. Qed.
 Print Assumptions c06_gap_requested.
 
+(* re-sent data below the frontier segment, on a well-formed tracker, that lies within one tracked range or touches none
+   (op_pre, the precondition of C18's remove): the call leaves exactly the tracker the single removal leaves.  Since the
+   F9 repair the call loops over the tracked ranges and removes from each the part the data covers; for data that
+   overlaps tracked ranges in any other way see c06_tracker_never_forgets (props/C06b.v). *)
 Theorem c06_retransmitted_removed : forall s off len tr' b,
+  Inv (p_tracker (d_p s)) -> op_pre (p_tracker (d_p s)) (ORemove off (off + len)) ->
   off + len <= p_last_start (d_p s) -> off < p_last_end (d_p s) ->
   LostSeg.remove (off, off + len) (p_tracker (d_p s)) = Ok (tr', b) ->
   exists s', lost_segment_handling off len s = (s', Ok tt) /\ p_tracker (d_p s') = tr' /\ d_queue s' = d_queue s.
